@@ -257,7 +257,9 @@ func (x *schedExec) status() string {
 
 // schedScenario is a concurrency scenario: build returns the activities and the end-of-execution oracle.
 type schedScenario struct {
-	name  string
+	name string
+	// prepare, if set, runs once per job outside any bubble (reference executions of the same requests one at a time)
+	prepare func(t *testing.T)
 	build func(x *schedExec) (acts []activity, atPoint func() *pt.Violation, atEnd func() *pt.Violation, shutdown func())
 }
 
@@ -347,6 +349,9 @@ func init() {
 			return
 		}
 		sc := mk(p.Args)
+		if sc.prepare != nil {
+			sc.prepare(curT)
+		}
 		info := pt.ShardInfo{Exhaustive: true}
 		outcomes := map[string]bool{}
 		traces := map[string]bool{}
@@ -521,7 +526,11 @@ func init() {
 			emit(pt.Line{Err: "unknown scenario " + ex.Scenario}, true)
 			return
 		}
-		r := runSchedule(curT, mk(ex.Args), ex.Choices, 1000)
+		rsc := mk(ex.Args)
+		if rsc.prepare != nil {
+			rsc.prepare(curT)
+		}
+		r := runSchedule(curT, rsc, ex.Choices, 1000)
 		steps := r.trace
 		if len(r.labels) > 0 {
 			steps = r.labels
